@@ -660,7 +660,7 @@ theorem aggregate_eq (keyOf : Row → Key) (aggF : List Row → Row) (hasGroup :
   unfold aggregate aggTbl
   by_cases hR : R = []
   · subst hR
-    have : sortByGroupKey keyOf [] = [] := by simp [sortByGroupKey]
+    have : sortByGroupKey keyOf [] = [] := rfl
     rw [this, if_pos rfl]
     cases hasGroup <;> rfl
   · rw [if_neg hR]
@@ -749,6 +749,45 @@ theorem aggSpecs_eq (q : Query) : aggSpecs q = (aggOuts q).map fun t => ⟨t.1, 
   congr 1
   funext o
   cases o <;> rfl
+
+theorem dedup_of_nodup {α} [DecidableEq α] (l : List α) (h : l.Nodup) : dedup l = l := by
+  induction l with
+  | nil => rfl
+  | cons a l ih =>
+    rw [List.nodup_cons] at h
+    simp only [dedup, ih h.2]
+    congr 1
+    rw [List.filter_eq_self]
+    intro x hx
+    simp only [decide_eq_true_eq]
+    intro e; subst e; exact h.1 hx
+
+theorem nodup_of_map {α β} (f : α → β) (l : List α) (h : (l.map f).Nodup) : l.Nodup := by
+  unfold List.Nodup at h ⊢
+  rw [List.pairwise_map] at h
+  exact List.Pairwise.imp (fun hne e => hne (by rw [e])) h
+
+theorem aggSpecs_alias_sublist (outs : List Out) :
+    ((outs.filterMap fun o => match o with
+        | .col _ _ => none
+        | .agg f c a => some (f, c, a)).map (·.2.2)).Sublist (outs.map Out.alias) := by
+  induction outs with
+  | nil => exact List.Sublist.slnil
+  | cons o outs ih =>
+    cases o with
+    | col c a => simp only [List.filterMap_cons, List.map_cons]; exact List.Sublist.cons _ ih
+    | agg f c a => simp only [List.filterMap_cons, List.map_cons, Out.alias]; exact List.Sublist.cons₂ _ ih
+
+theorem aggSpecs_nodup (q : Query) (hal : (q.outs.map Out.alias).Nodup) : (aggSpecs q).Nodup := by
+  rw [aggSpecs_eq]
+  apply nodup_of_map (·.alias)
+  rw [List.map_map]
+  have : ((fun s : AggSpec => s.alias) ∘ fun t : AggFn × Nat × String => (⟨t.1, colName q.cols t.2.1, t.2.2⟩ : AggSpec)) = (·.2.2) := rfl
+  rw [this]
+  exact (aggSpecs_alias_sublist q.outs).nodup hal
+
+theorem dedup_aggSpecs (q : Query) (h : QWF q) : dedup (aggSpecs q) = aggSpecs q :=
+  dedup_of_nodup _ (aggSpecs_nodup q h.aliasesNodup)
 
 /-- HAVING's value on a group, as the `_h` aggregation computes it -/
 def havVals (q : Query) (g : List Row) : Row :=
@@ -1119,7 +1158,7 @@ theorem spec_grouped_unordered (q : Query) (h : QWF q) (rows : List Row) (keys :
   obtain ⟨hl, hoff⟩ := h.limitNeedsOrder ho
   have hpl : plan q = .aggregate (.join .scan q.where_ [] none 0) (groupSpec q.cols keys) (aggSpecs q) (havingSpec q)
       (finalProjs q) none 0 := by
-    simp [plan, hg, ho, hd, hl, hoff]
+    simp [plan, hg, ho, hd, hl, hoff, dedup_aggSpecs q h]
   rw [hpl, exec_aggregate_step, exec_join_scan ⟨q.cols, rows⟩ q.where_ h.whereWF [] [] rfl]
   simp only [List.isEmpty_nil, if_true, Option.bind_some]
   rw [execAggregate_grouped q h keys hg _ _ (Or.inr rfl)]
@@ -1127,18 +1166,6 @@ theorem spec_grouped_unordered (q : Query) (h : QWF q) (rows : List Row) (keys :
   refine ⟨_, rfl, ?_⟩
   simp only [Query.eval, hd, Bool.false_eq_true, if_false, ho, hl, hoff, orderBy_nil]
   exact grouped_body_perm q h keys hg rows
-
-theorem dedup_of_nodup {α} [DecidableEq α] (l : List α) (h : l.Nodup) : dedup l = l := by
-  induction l with
-  | nil => rfl
-  | cons a l ih =>
-    rw [List.nodup_cons] at h
-    simp only [dedup, ih h.2]
-    congr 1
-    rw [List.filter_eq_self]
-    intro x hx
-    simp only [decide_eq_true_eq]
-    intro e; subst e; exact h.1 hx
 
 theorem pickCols_self (names : List String) (hn : names.Nodup) (x : Row) (hx : x.length = names.length) :
     pickCols (names.map fun a => names.idxOf a) x = x := by
@@ -1220,7 +1247,7 @@ theorem spec_distinct (q : Query) (h : QWF q) (rows : List Row) (hd : q.distinct
       refine ⟨((execAggRows q keys (rows.filter (whereHolds q.where_))).filter (keepH q keys)).map (pickCols (q.outs.map (projIdx q keys))),
         .aggregate (.join .scan q.where_ [] none 0) (groupSpec q.cols keys) (aggSpecs q) (havingSpec q) (finalProjs q) none 0,
         ?_, ?_, ?_⟩
-      · simp [plan, hg, ho, hd, hl, hoff]
+      · simp [plan, hg, ho, hd, hl, hoff, dedup_aggSpecs q h]
       · rw [exec_aggregate_step, exec_join_scan ⟨q.cols, rows⟩ q.where_ h.whereWF [] [] rfl]
         simp only [List.isEmpty_nil, if_true, Option.bind_some]
         rw [execAggregate_grouped q h keys hg _ _ (Or.inr rfl)]
@@ -1237,5 +1264,153 @@ theorem spec_distinct (q : Query) (h : QWF q) (rows : List Row) (hd : q.distinct
     exact hout
   · rw [heval]
     exact hp.trans (dedup_perm _ _ hperm)
+
+
+/-! ### grouped ordered queries; the main theorem -/
+theorem sortKey_grouped (q : Query) (h : QWF q) (keys : List Nat) (hg : q.group = some keys) :
+    sortKey q = q.order.map fun it => (Out.alias (q.outs.getD it.1 (.col 0 "")), it.2.1, it.2.2) := by
+  unfold sortKey
+  apply List.map_congr_left
+  intro it hit
+  obtain ⟨p, d, nf⟩ := it
+  have hp := h.orderInRange _ hit
+  simp only [hg, List.getElem?_eq_getElem hp, List.getD, Option.getD_some]
+
+/-- ORDER BY separates the rows it sorts (a "total ORDER BY"): needed to speak about THE sequence -/
+def TotalOn (q : Query) (l : List Row) : Prop :=
+  ∀ a ∈ l, ∀ b ∈ l, cmpRows (orderItems q.order) a b = .eq → a = b
+
+theorem orderBy_perm_total (items : List ((Row → Val) × Bool × Bool)) (limit : Option Nat) (offset : Nat) (l1 l2 : List Row)
+    (hp : List.Perm l1 l2) (htot : ∀ a ∈ l1, ∀ b ∈ l1, cmpRows items a b = .eq → a = b) :
+    orderBy items limit offset l1 = orderBy items limit offset l2 := by
+  unfold orderBy
+  rw [mergeSort_perm_unique (cmpRows items) (cmpRows_laws items) l1 l2 hp htot]
+
+/-- shape E: SELECT keys, aggregates … GROUP BY … [HAVING] ORDER BY … [LIMIT … OFFSET …], total ORDER BY: the sequence -/
+theorem spec_grouped_ordered (q : Query) (h : QWF q) (rows : List Row) (keys : List Nat) (hg : q.group = some keys)
+    (ho : q.order ≠ []) :
+    ∃ out, exec stdCfg ⟨q.cols, rows⟩ (plan q) = some ⟨q.outs.map Out.alias, out⟩
+      ∧ (TotalOn q (q.body rows) → out = q.eval rows) := by
+  have hd : q.distinct = false := by
+    cases hdd : q.distinct with
+    | false => rfl
+    | true => exact absurd (h.noDistinctOrder hdd) ho
+  have hoe : q.order.isEmpty = false := by
+    cases hq : q.order with
+    | nil => exact absurd hq ho
+    | cons _ _ => rfl
+  have hpl : plan q = .sort (.aggregate (.join .scan q.where_ [] none 0) (groupSpec q.cols keys) (aggSpecs q) (havingSpec q)
+      [] none 0) (sortKey q) (finalProjs q) q.limit q.offset := by
+    simp [plan, hg, hd, hoe, dedup_aggSpecs q h]
+  rw [hpl, exec_sort_step, exec_aggregate_step, exec_join_scan ⟨q.cols, rows⟩ q.where_ h.whereWF [] [] rfl]
+  simp only [List.isEmpty_nil, if_true, Option.bind_some]
+  rw [execAggregate_grouped q h keys hg _ _ (Or.inl rfl)]
+  simp only [List.isEmpty_nil, if_true, Option.bind_some]
+  let Y := (execAggRows q keys (rows.filter (whereHolds q.where_))).filter (keepH q keys)
+  let names := aggTableCols q keys
+  have hYlen : ∀ y ∈ Y, y.length = names.length := by
+    intro y hy
+    obtain ⟨rep, g, rfl⟩ := execAggRows_mem q keys _ y (List.mem_filter.1 hy).1
+    exact aggRowOf_length q keys rep g
+  let kfun : Nat × Bool × Bool → Nat := fun it => names.length + it.1
+  rw [execSort_spec ⟨names, Y⟩ (sortKey q) (finalProjs q) q.limit q.offset (q.outs.map (projIdx q keys)) (q.order.map kfun)
+      (resolve_grouped q h keys hg) ?_ (finalProjs_isEmpty q h.outsNonempty) hYlen ?_ (orderItems q.order) ?_]
+  · simp only [finalProjs_alias]
+    refine ⟨_, rfl, ?_⟩
+    intro htot
+    simp only [Query.eval, hd, Bool.false_eq_true, if_false]
+    have hperm := grouped_body_perm q h keys hg rows
+    apply orderBy_perm_total _ _ _ _ _ hperm
+    intro a ha b hb
+    exact htot a (hperm.mem_iff.1 ha) b (hperm.mem_iff.1 hb)
+  · rw [finalProjs_alias, sortKey_grouped q h keys hg, List.map_map]
+    apply resolve_map
+    intro it hit
+    have hp := h.orderInRange _ hit
+    apply colIdx_append_right
+    apply colIdx_at _ h.aliasesNodup
+    simp [List.getD, List.getElem?_map, List.getElem?_eq_getElem hp]
+  · simp [finalProjs, hg]
+  · intro r1 hr1 r2 hr2
+    rw [sortKey_grouped q h keys hg]
+    apply sortCmp_aligned q.order kfun
+    intro it _
+    have e : ∀ y ∈ Y, Sem.getCol (y ++ pickCols (q.outs.map (projIdx q keys)) y) (kfun it)
+        = Sem.getCol (pickCols (q.outs.map (projIdx q keys)) y) it.1 := by
+      intro y hy
+      show Sem.getCol _ (names.length + it.1) = _
+      rw [← hYlen y hy, getCol_append_right]
+    exact ⟨e r1 hr1, e r2 hr2⟩
+
+theorem cmpKey_eq (d nf : Bool) (x y : Val) (h : cmpKey d nf x y = .eq) : x = y := by
+  cases hx : x.isNull <;> cases hy : y.isNull <;> simp only [cmpKey, hx, hy] at h
+  · cases d
+    · exact (cmp_eq_iff x y).1 (by simpa using h)
+    · exact ((cmp_eq_iff y x).1 (by simpa using h)).symm
+  · cases nf <;> simp at h
+  · cases nf <;> simp at h
+  · cases x <;> cases y <;> simp_all [Val.isNull]
+
+theorem cmpRows_eq_all (items : List ((Row → Val) × Bool × Bool)) (a b : Row) (h : cmpRows items a b = .eq) :
+    ∀ it ∈ items, it.1 a = it.1 b := by
+  induction items with
+  | nil => intro it hit; cases hit
+  | cons it items ih =>
+    obtain ⟨f, d, nf⟩ := it
+    simp only [cmpRows] at h
+    cases hc : cmpKey d nf (f a) (f b) with
+    | eq =>
+      rw [hc] at h
+      intro it hit
+      simp only [List.mem_cons] at hit
+      rcases hit with rfl | hit
+      · exact cmpKey_eq d nf _ _ hc
+      · exact ih h it hit
+    | lt => rw [hc] at h; cases h
+    | gt => rw [hc] at h; cases h
+
+/-- an ORDER BY that mentions every output column is total on rows of the output width -/
+theorem total_of_all_positions (q : Query) (l : List Row) (hl : ∀ x ∈ l, x.length = q.outs.length)
+    (hall : ∀ p, p < q.outs.length → ∃ it ∈ q.order, it.1 = p) : TotalOn q l := by
+  intro a ha b hb hc
+  have hall' := cmpRows_eq_all _ a b hc
+  apply List.ext_getElem
+  · rw [hl a ha, hl b hb]
+  · intro p h1 h2
+    obtain ⟨it, hit, rfl⟩ := hall p (by rw [← hl a ha]; exact h1)
+    have := hall' ((fun r => Sem.getCol r it.1), it.2.1, it.2.2) (by
+      simp only [orderItems, List.mem_map]
+      exact ⟨it, hit, rfl⟩)
+    simpa [Sem.getCol, List.getD, List.getElem?_eq_getElem h1, List.getElem?_eq_getElem h2] using this
+
+/-- **single_table_query_spec** (for the proved configuration): executing the planner's Step DAG of a well-formed
+    single-table query yields the reference answer: its column names; its rows as a bag when there is no ORDER BY;
+    exactly its row sequence under a total ORDER BY (and always for a query without aggregation). -/
+theorem single_table_query_spec_std (q : Query) (rows : List Row) (h : QWF q)
+    (hrows : ∀ r ∈ rows, r.length = q.cols.length) :
+    ∃ out, exec stdCfg ⟨q.cols, rows⟩ (plan q) = some ⟨q.outs.map Out.alias, out⟩
+      ∧ (q.order = [] → List.Perm out (q.eval rows))
+      ∧ (q.order ≠ [] → TotalOn q (q.body rows) → out = q.eval rows)
+      ∧ (q.group = none → q.distinct = false → out = q.eval rows) := by
+  by_cases ho : q.order = []
+  · cases hd : q.distinct with
+    | true =>
+      obtain ⟨out, he, hp⟩ := spec_distinct q h rows hd
+      exact ⟨out, he, fun _ => hp, fun hne => absurd ho hne, fun _ hdf => by cases hdf⟩
+    | false =>
+      cases hg : q.group with
+      | none =>
+        have := spec_plain_unordered q h rows hg ho hd
+        exact ⟨_, this, fun _ => List.Perm.refl _, fun hne => absurd ho hne, fun _ _ => rfl⟩
+      | some keys =>
+        obtain ⟨out, he, hp⟩ := spec_grouped_unordered q h rows keys hg ho hd
+        exact ⟨out, he, fun _ => hp, fun hne => absurd ho hne, fun hgn => by cases hgn⟩
+  · cases hg : q.group with
+    | none =>
+      have := spec_plain_ordered q h rows hrows hg ho
+      exact ⟨_, this, fun e => absurd e ho, fun _ _ => rfl, fun _ _ => rfl⟩
+    | some keys =>
+      obtain ⟨out, he, hp⟩ := spec_grouped_ordered q h rows keys hg ho
+      exact ⟨out, he, fun e => absurd e ho, fun _ ht => hp ht, fun hgn => by cases hgn⟩
 
 end SqlglotModel.Exec
